@@ -158,7 +158,7 @@ def magnitude(t, pool):
         return magnitude(t[1], pool) / abs(dict(SCALARS)[t[2]])
     if op in ("neg", "T", "H"):
         return magnitude(t[1], pool)
-    if op in ("add", "sub"):
+    if op in ("add", "sub", "iadd", "isub"):
         return magnitude(t[1], pool) + magnitude(t[2], pool)
     a, b = ref_eval(t[1], pool), ref_eval(t[2], pool)
     n = max(np.asarray(a[2]).shape + np.asarray(b[2]).shape)
@@ -188,7 +188,7 @@ def ref_eval(t, pool):
         return ("disc", m.shape, m)
     a = ref_eval(t[1], pool)
     b = ref_eval(t[2], pool)
-    if op in ("add", "sub"):
+    if op in ("add", "sub", "iadd", "isub"):
         if a[0] != b[0]:
             raise Ill("sorts differ")
         if a[0] == "pot":
@@ -196,7 +196,7 @@ def ref_eval(t, pool):
                 raise Ill("potential operators on different spaces / points")
         elif a[1] != b[1]:
             raise Ill("types differ: %s vs %s" % (a[1], b[1]))
-        return (a[0], a[1], a[2] + b[2] if op == "add" else a[2] - b[2])
+        return (a[0], a[1], a[2] + b[2] if op in ("add", "iadd") else a[2] - b[2])
     if op in ("mul", "matmul"):
         if a[0] == "bop" and b[0] == "bop":
             if b[1][1] != a[1][0]:
@@ -257,6 +257,14 @@ def lib_eval(t, pool):
         return a + b
     if op == "sub":
         return a - b
+    if op == "iadd":  # a += b (only ZeroBoundaryOperator defines __iadd__/__isub__; everything else falls back to a + b, nothing is mutated)
+        import operator
+
+        return operator.iadd(a, b)
+    if op == "isub":
+        import operator
+
+        return operator.isub(a, b)
     if op == "mul":
         return a * b
     if op == "matmul":
@@ -330,7 +338,7 @@ def sort_of(t):
         return sort_of(t[2])
     if op in ("muls", "neg", "div", "T", "H"):
         return sort_of(t[1])
-    if op in ("add", "sub"):
+    if op in ("add", "sub", "iadd", "isub"):
         return sort_of(t[1])
     if op in ("mul", "matmul"):
         a, b = sort_of(t[1]), sort_of(t[2])
@@ -376,6 +384,9 @@ def terms(max_nodes, scalars):
                     if sa == sb:
                         new.append(("add", a, b))
                         new.append(("sub", a, b))
+                        if i + j == 0:
+                            new.append(("iadd", a, b))
+                            new.append(("isub", a, b))
                         if sa in ("bop", "blk", "disc"):
                             new.append(("mul", a, b))
                             if sa != "disc" or i + j == 0:
@@ -405,7 +416,7 @@ def show(t):
         return "-(%s)" % show(t[1])
     if op in ("T", "H"):
         return "(%s).%s" % (show(t[1]), op)
-    sym = {"add": "+", "sub": "-", "mul": "*", "matmul": "@"}[op]
+    sym = {"add": "+", "sub": "-", "mul": "*", "matmul": "@", "iadd": "+=", "isub": "-="}[op]
     return "(%s %s %s)" % (show(t[1]), sym, show(t[2]))
 
 
@@ -424,7 +435,7 @@ def shape_sig(t):
         return "-%s" % shape_sig(t[1])
     if op in ("T", "H"):
         return "%s.%s" % (shape_sig(t[1]), op)
-    sym = {"add": "+", "sub": "-", "mul": "*", "matmul": "@"}[op]
+    sym = {"add": "+", "sub": "-", "mul": "*", "matmul": "@", "iadd": "+=", "isub": "-="}[op]
     return "(%s%s%s)" % (shape_sig(t[1]), sym, shape_sig(t[2]))
 
 
